@@ -1303,9 +1303,28 @@ class Models(object):
                          name="map(%s)" % it.name, kind="map-int")
                 self._comp_abstract = SSeq(it.length, m, name="map(str,%s)" % m.name, kind="intstr")
                 return True
+            if isinstance(v, (tuple, list)) and all(isinstance(x, (Sym, str, int, type(None))) and not isinstance(x, (SSeq, MSet)) for x in v):
+                # [(g(x), h, ...) for x in seq]: one tuple per element; kept as "the element at the generic index i0",
+                # which is all a consumer working element by element (executemany) needs
+                self.used("pointwise-comprehension-rule(tuple per element of an abstract sequence)")
+                def _no_elem(j):
+                    raise Undecided("element access into a sequence of tuples built by a comprehension over an abstract sequence")
+                self._comp_abstract = SSeq(it.length, _no_elem, name="map-tuple(%s)" % it.name, kind="map-tuple", src=(it, i0, tuple(v) if isinstance(v, tuple) else list(v)))
+                return True
             raise Undecided("comprehension over an abstract sequence with a non-integer element expression")
-        # [x for x in <abstract int collection> if cond(x)]  ->  filtered abstract collection
+        # [str(x) for x in <abstract int collection>]  ==  map(str, <collection>);  [<constant> for _ in <collection>]
         base = _as_sset(it)
+        if base is not None and len(gens) == 1 and not g.ifs and isinstance(node, (ast.ListComp, ast.GeneratorExp)) and isinstance(g.target, ast.Name):
+            el = node.elt
+            if isinstance(el, ast.Call) and isinstance(el.func, ast.Name) and el.func.id == "str" and len(el.args) == 1 and not el.keywords \
+                    and isinstance(el.args[0], ast.Name) and el.args[0].id == g.target.id and self.interp.eval(el.func, env) is builtins.str:
+                self.used("pointwise-comprehension-rule(str over abstract int set)")
+                self._comp_abstract = SSeq(base.card, base, name="map(str,%s)" % base.name, kind="setstr")
+                return True
+            if isinstance(el, ast.Constant) and isinstance(el.value, str):
+                self._comp_abstract = SSeq(base.card, el.value, name="const(%s)" % base.name, kind="const")
+                return True
+        # [x for x in <abstract int collection> if cond(x)]  ->  filtered abstract collection
         if base is not None and len(gens) == 1 and isinstance(node, (ast.ListComp, ast.GeneratorExp)) \
                 and isinstance(g.target, ast.Name) and isinstance(node.elt, ast.Name) and node.elt.id == g.target.id:
             from .interp import Env
